@@ -59,8 +59,10 @@ class Kill(BaseException):
 
 
 class FileObj:
-    def __init__(self, ident, is_input=False, stale=False):
+    def __init__(self, ident, is_input=False, stale=False, broken=False):
         self.ident, self.is_input, self.stale = ident, is_input, stale
+        #: a leftover that is NOT a loadable result (placeholder, wreck)
+        self.broken = broken
         self.writes = 0
         self.handles = 0
         self.opened_writable = False
@@ -180,8 +182,14 @@ def make_world(fs):
         def mkdir(self, parents=False, exist_ok=False):
             fs.dirs.add(self.s)
 
-        def unlink(self):
-            fs.tick("unlink %s" % self.s)
+        def unlink(self, missing_ok=False):
+            if self.s not in fs.files:
+                if missing_ok:
+                    return
+                raise FileNotFoundError(self.s)
+            # not a fault point (the statement's points are HDF5 writes,
+            # creations, copies, file close and rename)
+            fs.log.append("unlink %s" % self.s)
             f = fs.files.pop(self.s)
             if f.is_input:
                 fs.input_violations.append("input %s unlinked" % self.s)
@@ -448,8 +456,9 @@ def scenario(fs, FPath, p):
             inputs = inputs + ["/d/in0.rtdc"]
     outs = [out]
     if p.get("stale") and variant == "distinct":
-        fs.new_file("/d/out.rtdc", stale=True)
-        fs.new_file("/d/out.rtdc~", stale=True)
+        fs.new_file("/d/out.rtdc", stale=True,
+                    broken=p["stale"] == "broken")
+        fs.new_file("/d/out.rtdc~", stale=True, broken=True)
     return inputs, outs
 
 
@@ -521,7 +530,8 @@ def run(eng, p):
             f = st.get(o)
             if f is None:
                 continue
-            if f.stale and f.writes == 0 and f.handles == 0:
+            if f.stale and f.writes == 0 and f.handles == 0 and \
+                    not f.broken:
                 continue      # untouched complete result of an earlier run
             ok = (not f.stale) and f.handles == 0 and refw[o] is not None \
                 and f.writes == refw[o]
@@ -530,6 +540,8 @@ def run(eng, p):
                          "at op %d (%s) with %d/%s writes, %d open handle(s)"
                          "%s" % (p["task"], o, outcome, fs.n, fault,
                                  f.writes, refw[o], f.handles,
+                                 ", unloadable leftover of an earlier run"
+                                 if f.stale and f.broken else
                                  ", stale file from an earlier run"
                                  if f.stale else ""))
     # ---- inputs: untouched
@@ -560,7 +572,7 @@ def cases(tier, seed):
     tasks = ["compress", "condense", "repack", "join", "split", "tdms2rtdc"]
     for t in tasks:
         for kind in ("raise", "kill"):
-            for stale in (False, True):
+            for stale in (False, True, "broken"):
                 out.append(("%s %s distinct stale=%s" % (t, kind, stale),
                             dict(task=t, kind=kind, out="distinct",
                                  stale=stale)))
@@ -609,6 +621,8 @@ def _replay(case, params, v):
         return {"reproduced": False, "key": "no-replay",
                 "detail": "tdms fixtures cannot be produced offline: %r" %
                           (v.get("detail"),)}
+    if what.startswith("exception:"):
+        return replay_plain(p, what, str(v.get("detail")))
     return replay_fault(p, int(vals.get("fault_at", 0)), what,
                         str(v.get("detail")))
 
@@ -670,6 +684,37 @@ def replay_same_path(p):
     return {"reproduced": True,
             "key": "setup_task_paths|output-path-is-an-input|input-"
                    "destroyed", "detail": fails[0]}
+
+
+def replay_plain(p, what, detail):
+    """the model raised an exception: does the real task fail without any
+    injected fault?"""
+    import multiprocessing
+    import os
+    import tempfile
+    import dclab.rtdc_dataset.writer as W
+    ctx = multiprocessing.get_context("fork")
+    old = W.version
+    W.version = "0.62.7"
+    try:
+        with tempfile.TemporaryDirectory(prefix="verif_c10_") as td, quiet():
+            pins = [os.path.join(td, "in%d.rtdc" % i) for i in range(3)]
+            for i, x in enumerate(pins):
+                _make_input(x, i)
+            d = os.path.join(td, "run")
+            os.mkdir(d)
+            _child(ctx, p, pins, d, 0, "count")
+            sig = _signature(p, d)
+    finally:
+        W.version = old
+    bad = [k for k, s_ in sig.items() if isinstance(s_, str)]
+    if not sig or bad:
+        return {"reproduced": True, "key": "%s|fails-without-fault" %
+                p["task"], "detail": "dclab-%s without any fault produces "
+                "%r (model: %s %s)" % (p["task"], sig, what, detail[:200])}
+    return {"reproduced": False, "key": "not-reproduced",
+            "detail": "the real task succeeds (model raised %s: %s)" % (
+                what, detail[:300])}
 
 
 def replay_fault(p, fault_at, what, detail):
@@ -785,6 +830,9 @@ def _child(ctx, p, pins, outdir, fault_at, kind):
         try:
             t = p["task"]
             out = os.path.join(outdir, "out.rtdc")
+            if p.get("stale") == "broken" and t != "split":
+                with open(out, "wb") as fd:      # unloadable leftover
+                    fd.write(b"not an hdf5 file")
             if t == "join":
                 cli.join(paths_in=pins[:p.get("n_inputs", 2)], path_out=out)
             elif t == "split":
